@@ -27,6 +27,7 @@ type c07Builder struct {
 	nodes  map[string]*yaml.Node
 	akeys  bool // write some keys as aliases to anchored scalars
 	spell  bool // write the keys "12" and "true" in non-canonical spellings (0xc, 1_2, +12, True, TRUE)
+	dupanc bool // every anchored mapping carries the SAME anchor name: identity is the node, never the name
 	keyAnc map[string]*yaml.Node
 	rng    *rand.Rand
 }
@@ -38,6 +39,9 @@ func (b *c07Builder) node(name string) *yaml.Node {
 	n := &yaml.Node{Kind: yaml.MappingNode, Tag: "!!map"}
 	if b.aliased == nil || b.aliased[name] {
 		n.Anchor = name
+		if b.dupanc {
+			n.Anchor = "r"
+		}
 	}
 	b.nodes[name] = n // registered before the body is built: cycles close on it
 	entries, _ := b.g[name].([]any)
@@ -211,6 +215,72 @@ func (t *c07Text) value(v map[string]any, b *strings.Builder) {
 	}
 }
 
+// c07ReuseAnchors renames anchors of the rendered text so that one name ("r") is defined again and again:
+// YAML lets a later definition shadow an earlier one, and an alias refers to the latest definition before it. A
+// definition takes the name "r" when no alias to the present holder of "r" follows it; the document's meaning
+// (which node each alias refers to) is unchanged.
+func c07ReuseAnchors(src string) string {
+	type tok struct {
+		pos, end int
+		def      bool
+		name     string
+	}
+	var toks []tok
+	inq := false
+	for i := 0; i < len(src); i++ {
+		ch := src[i]
+		if inq {
+			if ch == '\\' {
+				i++
+			} else if ch == '"' {
+				inq = false
+			}
+			continue
+		}
+		if ch == '"' {
+			inq = true
+			continue
+		}
+		if ch == '&' || ch == '*' {
+			j := i + 1
+			for j < len(src) && (src[j] == '_' || src[j] >= '0' && src[j] <= '9' || src[j] >= 'A' && src[j] <= 'Z' || src[j] >= 'a' && src[j] <= 'z') {
+				j++
+			}
+			if j > i+1 {
+				toks = append(toks, tok{i, j, ch == '&', src[i+1 : j]})
+				i = j - 1
+			}
+		}
+	}
+	last := map[string]int{}
+	for _, t := range toks {
+		if !t.def {
+			last[t.name] = t.pos
+		}
+	}
+	ren := map[string]string{}
+	holder := ""
+	for _, t := range toks {
+		if t.def && (holder == "" || last[holder] < t.pos) {
+			holder = t.name
+			ren[t.name] = "r"
+		}
+	}
+	var sb strings.Builder
+	at := 0
+	for _, t := range toks {
+		sb.WriteString(src[at : t.pos+1])
+		if r, ok := ren[t.name]; ok {
+			sb.WriteString(r)
+		} else {
+			sb.WriteString(t.name)
+		}
+		at = t.end
+	}
+	sb.WriteString(src[at:])
+	return sb.String()
+}
+
 func toAV(x any) any {
 	switch t := x.(type) {
 	case *ordered.MapSA:
@@ -273,6 +343,23 @@ func independent(x any, seen map[uintptr]bool) bool {
 
 // c07Decode performs one real decode of the case in the given mode.
 func c07Decode(c obj, mode string) obj {
+	if c["poison"] == true {
+		// history: this process has just REJECTED documents (bad keys met half-way through a mapping, a value
+		// cycle). What a decode gives never depends on what was decoded - or refused - before it
+		// (the last ones are refused half-way through the keys of their ROOT mapping: nothing decoded after them
+		// in this history could tidy up behind them)
+		for _, src := range []string{"&a {x: 1, y: [*a ]}", "{x: {y: 1, 12: 2, ? {q: 1} : 2}}", "a: &a {x: 1, y: 2, ? *a : z}",
+			"{y: 1, x: 2, ~: oops}", "{x: 1, y: 2, \"12\": 3, \"true\": 4, [q]: oops}"} {
+			var n yaml.Node
+			if err := yaml.Unmarshal([]byte(src), &n); err == nil {
+				_, _ = ordered.DecodeYAML(&n)
+				m := ordered.NewMap[string, any](0)
+				if len(n.Content) > 0 {
+					_ = m.UnmarshalYAML(n.Content[0])
+				}
+			}
+		}
+	}
 	g := asMap(c["g"])
 	root, _ := c["root"].(string)
 	seed := int64(1)
@@ -287,7 +374,7 @@ func c07Decode(c obj, mode string) obj {
 	var run func() res
 	switch mode {
 	case "node", "mapunmarshal":
-		b := &c07Builder{g: g, nodes: map[string]*yaml.Node{}, keyAnc: map[string]*yaml.Node{}, akeys: c["akeys"] == true, spell: c["spell"] == true, rng: newRand(seed, "c07"),
+		b := &c07Builder{g: g, nodes: map[string]*yaml.Node{}, keyAnc: map[string]*yaml.Node{}, akeys: c["akeys"] == true, spell: c["spell"] == true, dupanc: c["dupanc"] == true, rng: newRand(seed, "c07"),
 			aliased: c07Aliased(g)}
 		rn := b.node(root)
 		if mode == "node" {
@@ -309,6 +396,9 @@ func c07Decode(c obj, mode string) obj {
 			return ev
 		}
 		src := sb.String()
+		if c["dupanc"] == true {
+			src = c07ReuseAnchors(src)
+		}
 		ev["text"] = src
 		if mode == "text" {
 			run = func() res {
@@ -573,7 +663,7 @@ func c07RandomCase(rng *rand.Rand) obj {
 			continue
 		}
 		g["S"] = []any{}
-		return obj{"g": g, "root": root, "akeys": rng.Intn(2) == 0, "spell": rng.Intn(2) == 0, "child": cyclic, "cyc": false}
+		return obj{"g": g, "root": root, "akeys": rng.Intn(2) == 0, "spell": rng.Intn(2) == 0, "dupanc": rng.Intn(3) == 0, "poison": rng.Intn(4) == 0, "child": cyclic, "cyc": false}
 	}
 }
 
